@@ -11,7 +11,7 @@ use crate::exch::{ExchCfg, Gate, Menu, ServerMsg};
 use crate::exch_run::{replay_exchange, run_exchanges};
 use crate::refmodel::chunked::{encode, ChunkSpec};
 
-pub const RULE: &str = "codings by construction: chunks of size {1,2,3} x payload pattern {letters, starts with CRLF, ends with CR, starts with LF} x size spelling {plain, leading zero, extension}, last-chunk spelling {0,000,0;x}, 0..2 trailers, always followed by 'HTTP/1.1 2' which must stay unconsumed; quick: all 1-chunk codings and a pairwise-reduced family of 2-chunk codings, thorough: all codings of <=2 chunks and a reduced family of 3-chunk codings; plus single chunks of size 15,16,255,256,4095,4096 in lower/upper/mixed-case hex with and without leading zero. Per coding and boundary-stop {off,on} the COMPLETE graph over (dechunker state, consumed, arrived): 1-byte arrivals, read with buffers {0,1,2,3,4,large} at every window (large chunks: arrival cuts at every size-line/tail position and data end -1/0/+1/+2, buffers {0,size-1,size,size+1,large} and {1,4} up to 256). distinct = distinct (coding, stop mode, final observation)";
+pub const RULE: &str = "codings by construction: chunks of size {1,2,3} x payload pattern {letters, starts with CRLF, ends with CR, starts with LF} x size spelling {plain, leading zero, extension}, last-chunk spelling {0,000,0;x}, 0..2 trailers, size lines of exactly 20 and 19 bytes (the decoder's documented limit), a 130-byte trailer line, always followed by 'HTTP/1.1 2' which must stay unconsumed; quick: all 1-chunk codings and a pairwise-reduced family of 2-chunk codings, thorough: all codings of <=2 chunks and a reduced family of 3-chunk codings; plus single chunks of size 15,16,255,256,4095,4096 in lower/upper/mixed-case hex with and without leading zero. Per coding and boundary-stop {off,on} the COMPLETE graph over (dechunker state, consumed, arrived): 1-byte arrivals, read with buffers {0,1,2,3,4,large} at every window (large chunks: arrival cuts at every size-line/tail position and data end -1/0/+1/+2, buffers {0,size-1,size,size+1,large} and {1,4} up to 256). distinct = distinct (coding, stop mode, final observation)";
 
 const PATTERNS: [&[u8]; 4] = [b"abc", b"\r\nx", b"xy\r", b"\nzz"];
 
@@ -28,7 +28,9 @@ fn chunk(size: usize, pat: usize, spell: usize) -> ChunkSpec {
 }
 
 fn mk(chunks: &[ChunkSpec], last: &str, ntrail: usize, stop: bool, menu_kind: u8) -> Arc<ExchCfg> {
-    let tr: Vec<&str> = ["T1: v", "Trailer-Two: w w"].iter().take(ntrail).cloned().collect();
+    // ntrail 3 = one short and one long (130-byte) trailer field line
+    let long_trailer = format!("X-Long-Trailer: {}", "t".repeat(114));
+    let tr: Vec<&str> = if ntrail == 3 { vec!["T1: v", long_trailer.as_str()] } else { ["T1: v", "Trailer-Two: w w"].iter().take(ntrail).cloned().collect() };
     let c = encode(chunks, last, &tr);
     let msg = RespMsg { version: "1.1".into(), status: 200, reason: "OK".into(), fields: vec![("Transfer-Encoding".into(), b"chunked".to_vec())], body: RespBody::Chunked { coding: c.bytes.clone(), payload: c.payload.clone(), ranges: c.data_ranges.clone() } };
     let head_len = msg.head_bytes().len();
@@ -129,6 +131,13 @@ pub fn build(tier: Tier) -> Vec<Arc<ExchCfg>> {
                 }
             }
         }
+        // size lines at the decoder's documented limit (20 bytes before CRLF) and just below, long trailer lines
+        for (sz, ext) in [("3", ";ext=aaaaaaaaaaaaaa"), ("3", ";ext=aaaaaaaaaaaaa"), ("0003", ";e=\"aaaaaaaaaaa\""), ("00000000000000000003", "")] {
+            let c = ChunkSpec { data: b"abc".to_vec(), size_txt: sz.to_string(), ext: ext.to_string() };
+            out.push(mk(&[c.clone()], "0", 0, stop, 0));
+            out.push(mk(&[chunk(2, 1, 0), c.clone()], "0;yyyyyyyyyyyyyyyyyy", 3, stop, 0));
+        }
+        out.push(mk(&[chunk(3, 0, 0)], "0", 3, stop, 0));
         // hex-digit boundaries: one large chunk
         for size in [15usize, 16, 255, 256, 4095, 4096] {
             let data: Vec<u8> = (0..size).map(|k| b"abcdefghijklmnopqrstuvwxyz\r\n"[k % 28]).collect();
@@ -147,7 +156,6 @@ pub fn build(tier: Tier) -> Vec<Arc<ExchCfg>> {
 
 pub fn run(tier: Tier) -> Report {
     let cfgs = build(tier);
-    crate::engine::WD_LIMIT_S.store(300, std::sync::atomic::Ordering::Relaxed);
     let lim = Limits { max_states: 5_000_000, keep_final_traces: 2, keep_state_traces: 2, check_coreach: true, probe_every: 8, ..Default::default() };
     let mut rep = run_exchanges(cfgs, &lim, true, |c| c.to_json());
     let fs = rep.extra.get("final_states").and_then(|v| v.as_u64()).unwrap_or(0);
